@@ -301,7 +301,7 @@ fn enc_msg_into(prefix: &[u8], m: &Message<Vec<u8>>) -> EncOut {
         let mut w = VecWriter::new();
         w.write_bytes(prefix);
         m.write(&mut w);
-        w.data
+        std::mem::take(&mut w.data)
     });
     let mut lw = LoggingWriter::default();
     lw.write_bytes(prefix);
@@ -314,7 +314,7 @@ fn enc_avp_into(prefix: &[u8], a: &AVP) -> EncOut {
         let mut w = VecWriter::new();
         w.write_bytes(prefix);
         a.write(&mut w);
-        w.data
+        std::mem::take(&mut w.data)
     });
     let mut lw = LoggingWriter::default();
     lw.write_bytes(prefix);
@@ -841,7 +841,7 @@ fn run(f: &[&str]) -> Option<String> {
                 for m in &msgs {
                     m.write(&mut w);
                 }
-                w.data
+                std::mem::take(&mut w.data)
             });
             match all {
                 None => "enc=panic".to_string(),
